@@ -41,6 +41,10 @@ pub struct Sc {
     /// inside; the file the client has to fetch is named after the resolved name in every case
     #[serde(default)]
     pub name_style: u8,
+    /// the delegated role is delegated by hash prefix instead of a path pattern: the first n hex
+    /// digits (1..4) of the SHA-256 of the resolved target name, so the entry is authorised
+    #[serde(default)]
+    pub hash_prefix_digits: u8,
 }
 
 pub struct C06;
@@ -55,7 +59,7 @@ impl Check for C06 {
         "C06"
     }
     fn rule(&self) -> String {
-        "seeded: target size (boundary set or random 0..64KiB), top-level or delegated, signed under a plain name or one that needs resolution (x/../n, ./n, inner ..), consistent snapshot on/off, explicit chunking with Pending points, one corruption kind; non-trivial = a corruption or fault fired and the target stream was pulled to its end or to an error; distinct = distinct canonical trace".into()
+        "seeded: target size (boundary set or random 0..64KiB), top-level or delegated (by path pattern or by a hash bin of 1..4 hex digits), signed under a plain name or one that needs resolution (x/../n, ./n, inner ..), consistent snapshot on/off, explicit chunking with Pending points, one corruption kind; non-trivial = a corruption or fault fired and the target stream was pulled to its end or to an error; distinct = distinct canonical trace".into()
     }
     fn assumptions(&self) -> Vec<String> {
         vec![
@@ -142,6 +146,7 @@ impl Check for C06 {
             corr,
             ask_unknown: r.chance(1, 12),
             name_style: if r.chance(1, 3) { 1 + r.below(3) as u8 } else { 0 },
+            hash_prefix_digits: if r.chance(1, 3) { 1 + r.below(4) as u8 } else { 0 },
         }
     }
 
@@ -217,6 +222,10 @@ impl Check for C06 {
         spec.add_target("other.bin", &other);
         if sc.delegated {
             let mut role = RoleNode::simple(sc.world, 10, "d1", &["d/*"]);
+            if sc.hash_prefix_digits > 0 {
+                let digest = crate::json::sha256_hex(resolved.as_bytes());
+                role.paths = crate::publisher::Paths::HashPrefixes(vec![digest[..(sc.hash_prefix_digits as usize).min(4)].to_string()]);
+            }
             role.targets.push(crate::publisher::TargetEntry::of(name, &body));
             spec.delegated.push(role);
         } else {
@@ -320,9 +329,10 @@ impl Check for C06 {
         let root_bytes = built.root.bytes();
         let ask = if sc.ask_unknown { if sc.delegated { "d/nope.bin" } else { "nope.bin" } } else { name };
         o.ev(format!(
-            "cfg consistent={} delegated={} name_style={} size={} corr={:?} chunks={} ask={}",
+            "cfg consistent={} delegated={} hash_digits={} name_style={} size={} corr={:?} chunks={} ask={}",
             sc.consistent,
             sc.delegated,
+            if sc.delegated { sc.hash_prefix_digits } else { 0 },
             sc.name_style % 4,
             sc.size,
             sc.corr,
@@ -365,6 +375,13 @@ impl Check for C06 {
         });
         let ((status, class), got) = match res {
             Ok(x) => x,
+            Err(m) if sc.delegated && sc.hash_prefix_digits > 0 && m.contains("InvalidPath") => {
+                o.violate(
+                    "authorised-entry-refused-at-load",
+                    format!("a delegated role holding the hash bin of its target (first {} digits of the name digest) was refused: {m}", sc.hash_prefix_digits),
+                );
+                return o;
+            }
             Err(m) => {
                 o.harness(format!("clean metadata did not load: {m}"));
                 return o;
